@@ -131,6 +131,13 @@ Section Warm.
     | (p, b) :: t => let '(c', r) := poa_step c p b in r :: poa_run c' t
     end.
 
+  (* the LRU bound (16 entries): between two validations the cache may lose arbitrary entries *)
+  Fixpoint poa_run_lossy (c : pcache) (steps : list ((pcache -> pcache) * (Blk * Blk))) : list R :=
+    match steps with
+    | [] => []
+    | (evict, (p, b)) :: t => let '(c', r) := poa_step (evict c) p b in r :: poa_run_lossy c' t
+    end.
+
   (* ------------------------------------------------------------ PoS *)
   Definition scache := list (Blk * list cand).
   Fixpoint sget (c : scache) (b : Blk) : option (list cand) :=
@@ -163,5 +170,10 @@ Section Warm.
     match steps with
     | [] => []
     | (p, b) :: t => let '(c', r) := pos_step c p b in r :: pos_run c' t
+    end.
+  Fixpoint pos_run_lossy (c : scache) (steps : list ((scache -> scache) * (Blk * Blk))) : list R :=
+    match steps with
+    | [] => []
+    | (evict, (p, b)) :: t => let '(c', r) := pos_step (evict c) p b in r :: pos_run_lossy c' t
     end.
 End Warm.
